@@ -11,7 +11,8 @@ from ..runner import h64
 
 PROPERTY = 'C15'
 RULE = ('event sequences of up to 300 events over <= 4 addresses and 3 threads: messages (each connection follows its own simulated, well-formed '
-        'history, client or server side), destroy of a known / closed / never-seen address, reuse of an address by a new connection. '
+        'history, client or server side), destroy of a known / closed / never-seen address, reuse of an address by a new connection, reuse of the owning '
+        'wl_display / wl_client struct, `wl` commands between events, entries into 14 other libwayland functions (teardown entry points included). '
         'distinct = hash of the event-kind sequence; non-trivial = sequence with at least one destroy and one address reuse')
 ASSUMPTIONS = ['the gdb shim run loop calls stop() of the breakpoints set on the function an event occurs in, as gdb does',
                'time columns are wall-clock in GDB mode and are ignored', 'lines with array arguments are compared up to the array contents']
